@@ -94,7 +94,9 @@ def prefilter (keep : Option (List Char)) (U : Uni) (input : List Char) : List C
 def cleanedText (keep : Option (List Char)) (U : Uni) (input : List Char) : List Char :=
   trimWs U (clean U (U.nfkc (prefilter keep U input)))
 
-/-- `normalize_text`, parameterised by the two repairs. `none` = `None`;
+/-- `normalize_text` with the truncation step written at cluster level (the form the theorems use;
+    `normalizeLit` below is the literal loop and `normalizeLit_eq` proves the two equal),
+    parameterised by the two repairs. `none` = `None`;
     `some (text, truncated)` = `Some(NormalizedText { text, truncated })`. -/
 def normalizeCfg (keep : Option (List Char)) (trail : Bool) (U : Uni) (input : List Char) (limit : Nat) :
     Option (List Char × Bool) :=
@@ -112,9 +114,45 @@ def normalizeCfg (keep : Option (List Char)) (trail : Bool) (U : Uni) (input : L
       | [] => some (out, r.2)
     else some (out, r.2)
 
-/-- the pipeline of the working tree -/
-def normalizeSrc : Uni → List Char → Nat → Option (List Char × Bool) :=
-  normalizeCfg Mv.Gen.C33.PREFILTER_KEEP Mv.Gen.C33.TRAIL_FIX
+/-- `String::truncate(new_len)`; `none` = panic (`new_len` falls inside a character) -/
+def truncateStr : List Char → Nat → Option (List Char)
+  | [], _ => some []
+  | c :: r, n =>
+    if n = 0 then some []
+    else if n < c.utf8Size then none
+    else (truncateStr r (n - c.utf8Size)).map (c :: ·)
+
+/-- the truncation loop as written: `out`, `consumed`, `keep` (only tracked with the repair),
+    result `(out, keep, truncated)` -/
+def truncLoop (U : Uni) (trail : Bool) (limit : Nat) :
+    List (List Char) → List Char → Nat → Nat → List Char × Nat × Bool
+  | [], out, _, keep => (out, keep, false)
+  | g :: rest, out, consumed, keep =>
+    let next := consumed + bytes g
+    if next > limit then (out, keep, true)
+    else truncLoop U trail limit rest (out ++ g) next (if trail && !endsWs U g then next else keep)
+
+/-- `normalize_text`, literal mirror. Outer `none` = panic (`String::truncate` off a char boundary). -/
+def normalizeLit (keep : Option (List Char)) (trail : Bool) (U : Uni) (input : List Char) (limit : Nat) :
+    Option (Option (List Char × Bool)) :=
+  let limit := max limit MIN_LIMIT
+  let t := cleanedText keep U input
+  if t.isEmpty then some none
+  else
+    let gs := U.graphemes t
+    let r := truncLoop U trail limit gs [] 0 0
+    match (if trail && r.2.2 then truncateStr r.1 r.2.1 else some r.1) with
+    | none => none
+    | some out =>
+      if out.isEmpty then
+        match gs with
+        | g :: _ => some (some (g, true))
+        | [] => some (some (out, r.2.2))
+      else some (some (out, r.2.2))
+
+/-- the pipeline of the working tree (literal mirror, shape read from the source) -/
+def normalizeSrc : Uni → List Char → Nat → Option (Option (List Char × Bool)) :=
+  normalizeLit Mv.Gen.C33.PREFILTER_KEEP Mv.Gen.C33.TRAIL_FIX
 
 /-- the code as found: NFKC, then control removal + whitespace compaction, plain truncation -/
 def normalizeOrig : Uni → List Char → Nat → Option (List Char × Bool) :=
